@@ -17,9 +17,13 @@
 #include <urcu/uatomic.h>
 #include <urcu/arch.h>
 
-#ifdef UAT_BUILTINS
+#if defined(UAT_BUILTINS)
 #define UAT(x) uatb_##x
 #define IMPL "builtins"
+#elif defined(UAT_C99)
+/* the default x86 implementation as a pre-C11 translation unit sees it (-std=gnu99: no __atomic loads/stores, explicit fences) */
+#define UAT(x) uatc_##x
+#define IMPL "x86, compiled as gnu99"
 #else
 #define UAT(x) uatx_##x
 #define IMPL "x86"
@@ -41,8 +45,8 @@ struct cells {
 	unsigned long token;		/* xchg token cell */
 } __attribute__((aligned(16)));
 
-/* shared by both compiled variants; defined in the default one */
-#ifdef UAT_BUILTINS
+/* shared by the compiled variants; defined in the default one */
+#if defined(UAT_BUILTINS) || defined(UAT_C99)
 extern struct cells *uat_cells;
 extern long uat_tok_collected[MAX_SCRIPT_THREADS][16];
 extern int uat_ntok[MAX_SCRIPT_THREADS];
@@ -366,10 +370,13 @@ void UAT(conserve)(int me, struct op *op) { UAT(conserve_op)(me, op); }
 unsigned long UAT(sb)(unsigned long *mine, unsigned long *other, int variant, int side) { return UAT(sb_side)(mine, other, variant, side); }
 
 /* ------------------------------------------------------------------ driver (default variant only) */
-#ifndef UAT_BUILTINS
+#if !defined(UAT_BUILTINS) && !defined(UAT_C99)
 void uatb_seq_all(void);
 void uatb_conserve(int me, struct op *op);
 unsigned long uatb_sb(unsigned long *mine, unsigned long *other, int variant, int side);
+void uatc_seq_all(void);
+void uatc_conserve(int me, struct op *op);
+unsigned long uatc_sb(unsigned long *mine, unsigned long *other, int variant, int side);
 
 static struct script scripts[MAX_SCRIPT_THREADS];
 static int nthreads, impl, lvariant;
@@ -388,7 +395,9 @@ static void *u_thread(void *arg)
 		if (op->skip)
 			continue;
 		usim_set_op("%d.%d kind%d width%d", me, i, op->kind, 1 << op->a);
-		if (impl)
+		if (impl == 2)
+			uatc_conserve(me, op);
+		else if (impl)
 			uatb_conserve(me, op);
 		else
 			uatx_conserve(me, op);
@@ -401,9 +410,9 @@ static void *u_thread(void *arg)
 			usim_pause();
 	}
 	if (me == 0)
-		sb_r[0] = impl ? uatb_sb(&lx, &ly, lvariant, 0) : uatx_sb(&lx, &ly, lvariant, 0);
+		sb_r[0] = impl == 2 ? uatc_sb(&lx, &ly, lvariant, 0) : impl ? uatb_sb(&lx, &ly, lvariant, 0) : uatx_sb(&lx, &ly, lvariant, 0);
 	else if (me == 1)
-		sb_r[1] = impl ? uatb_sb(&ly, &lx, lvariant, 1) : uatx_sb(&ly, &lx, lvariant, 1);
+		sb_r[1] = impl == 2 ? uatc_sb(&ly, &lx, lvariant, 1) : impl ? uatb_sb(&ly, &lx, lvariant, 1) : uatx_sb(&ly, &lx, lvariant, 1);
 	else if (me == 2) {
 		mp_data = 42;			/* plain store */
 		uatomic_set(&mp_flag, 1);
@@ -425,12 +434,14 @@ void scen_uatomic(void)
 		"r=add_return(other,0)", "r=sub_return(other,0)", "r=cmpxchg(other,0,0)", "add_return(dummy,0)" };
 
 	no_faults();
-	impl = (int) usim_param("impl", rnd(2));
+	impl = (int) usim_param("impl", rnd(5) == 0 ? 2 : rnd(2));
 	lvariant = (int) usim_param("litmus", rnd(L_NK));
 	nthreads = (int) usim_param("nthreads", 2 + rnd(3));
-	usim_describe("{\"impl\":\"%s\",\"litmus_barrier\":\"%s\",\"threads\":%d}", impl ? "builtins" : "x86", lname[lvariant], nthreads);
+	usim_describe("{\"impl\":\"%s\",\"litmus_barrier\":\"%s\",\"threads\":%d}", impl == 2 ? "x86 (gnu99 translation unit)" : impl ? "builtins" : "x86", lname[lvariant], nthreads);
 	/* (c) sequential semantics first, alone */
-	if (impl)
+	if (impl == 2)
+		uatc_seq_all();
+	else if (impl)
 		uatb_seq_all();
 	else
 		uatx_seq_all();
